@@ -81,6 +81,11 @@ def stF (w : World) (cfg : Cfg) : Ty → Obj → Option Obj
       | .ok m => if h : m ∈ cs then stF w cfg (.cls m) o else Option.none
       | .none => some .none
       | _ => Option.none
+  | .nt c, o =>
+      -- `namedtuple_structure_factory` (both converter classes): `cl(*structure(o, tuple[T1, ..., Tn]))`
+      match h : iterItems o with
+      | Option.none => Option.none
+      | some xs => if w.isNT c then (stFT w cfg (w.ntTys c) xs).map (ntMk w c) else Option.none
   | _, _ => Option.none
 termination_by t x => (sizeOf x, sizeOf t)
 decreasing_by
